@@ -32,10 +32,10 @@ CLAIMED = {
     ),
     "C19": (
         "proof",
-        "PARTIAL, scope stated. The property has two halves. (1) 'x on a grid node = infinitesimally displaced x': a corollary of contracts within reach, discharged here -- Runner.__init__ builds InterpolatorDispatcher(XGrid(card grid, card log flag), card degree) and hands the same object to every consumer (3 grids x degree 1-4 x log/linear); the C01 contracts the statement rests on are re-discharged (conv.convolution equals the spec integral for EVERY x, the paths where x sits exactly on an area border included; the quadrature is split at every area border; convolve_vector / convolve_operator structure); continuity of the spec integral then needs continuous basis functions (A-eko) -- bounded stand-in: eko's real evaluate_x / log_evaluate_x executed symbolically for every x on six grids (partition of unity by z3, continuity at area borders). (2) 'two adequate grids agree / convergence under refinement' is approximation theory about eko's polynomials and scipy's quadrature: NO contract decides it; only a BOUNDED stand-in (real LO+NLO runs on 15/30/60 nodes and degree 2 vs 4 with a smooth toy PDF; node vs 1e-9-displaced x on a real run), never counted as discharged.",
+        "PARTIAL, scope stated. The property has two halves. (1) 'x on a grid node = infinitesimally displaced x': a corollary of contracts within reach, discharged here -- Runner.__init__ builds InterpolatorDispatcher(XGrid(card grid, card log flag), card degree) and hands the same object to every consumer (3 grids x degree 1-4 x log/linear); the C01 contracts the statement rests on are re-discharged (conv.convolution equals the spec integral for EVERY x, the paths where x sits exactly on an area border included; the quadrature is split at every area border; convolve_vector / convolve_operator structure); continuity of the spec integral then needs continuous basis functions (A-eko) -- stand-ins labelled bounded: eko's real constructors and evaluate_x executed on SYMBOLIC nodes and a symbolic point (any node positions at least eko's comparison tolerance apart, degree 1-4, up to degree+3 nodes: partition of unity, p_j(t_k) = delta_jk, continuity at inner borders and zero at the borders of the support, as exact identities of rational functions), and on six concrete grids for every x (z3). (2) 'two adequate grids agree / convergence under refinement' is approximation theory about eko's polynomials and scipy's quadrature: NO contract decides it; only a BOUNDED stand-in (real LO+NLO runs on 15/30/60 nodes and degree 2 vs 4 with a smooth toy PDF; node vs 1e-9-displaced x on a real run), never counted as discharged.",
         "contract-based deductive verification for the wiring and the every-x convolution contracts (corollary: node continuity); bounded real runs as labelled stand-in for convergence",
         "DESIGN 9.9",
-        "half (2) is not decided by contracts; A-eko only bounded in the grid.",
+        "half (2) is not decided by contracts; A-eko bounded in the number of nodes and the degree (node positions and x unbounded).",
     ),
     "C04": (
         "proof",
@@ -46,7 +46,7 @@ CLAIMED = {
     ),
     "C14": (
         "proof",
-        "Invariant-style contracts on every memo table: the cache key built by sf.get_esf (recorded with a probing dict, symbolic kinematics) contains x and Q2 by name at fixed positions whatever the order/extra entries of the kinematics dict, plus the TMC flag, and the object returned is the one a fresh request builds; ESF.get_result computes once and returns a deep copy; ScaleVariations.operators[(label,nf)] and heavy.n3lo.interpolators[file name] are functions of keys that determine all inputs; Runner.get_result places results by original index on every Q2 ordering of 0..3 elements (symbolic Q2, ties included); AST write-set: no other module-level state is written. History independence then follows by induction over the public operations (DESIGN C14).",
+        "Invariant-style contracts on every memo table: the cache key built by sf.get_esf (recorded with a probing dict, symbolic kinematics) contains x and Q2 by name at fixed positions whatever the order/extra entries of the kinematics dict, plus the TMC flag, and the object returned is the one a fresh request builds; ESF.get_result computes once and returns a deep copy; ScaleVariations.operators[(label,nf)] and heavy.n3lo.interpolators[file name] are functions of keys that determine all inputs; Runner.get_result places results by original index on every Q2 ordering of 0..3 elements (symbolic Q2, ties included); AST frame lemma over every module of the package (contracts/frame_ast.py): no function writes process-global state -- module-level objects, class objects, class-level mutables, memoising decorators, mutable defaults -- except the listed memo tables (a new site leaves the lemma undecided: exit 2, not a violation). History independence then follows by induction over the public operations (DESIGN C14); concrete companions: sequences on shared objects and the process-/request-history battery (twelve diverse real runs, alone in a fresh interpreter vs inside three differently ordered sequences, and the full run vs one run per point, bit for bit).",
         "contract-based deductive verification: data-structure invariants (key determines value) + symbolic path exploration of the result placement + AST frame scan",
         "DESIGN 4 C14",
         "A-det (library determinism) for the bit-for-bit claim; dict lookups hash keys, so key construction is checked symbolically and lookups on concrete histories; end-to-end LO runs as a bounded stand-in (not counted).",
